@@ -242,6 +242,51 @@ def _only_invariant(cfg, inv, cwd):
     return np
 
 
+def _mc_cache_key(cmd, meta, cfg, cwd, env):
+    """Development aid, OFF unless VERIF_MC_CACHE names a directory (never set by the registered commands):
+    model checks of the specification do not depend on the tree under test, so repeated trials of mutants may
+    reuse their output.  Runs that read a file named in their environment (judges: TRACE=...) are never cached.
+    The key covers every file in the spec directory, the cfg and the command line."""
+    d = os.environ.get("VERIF_MC_CACHE")
+    if not d or env:
+        return None
+    h = hashlib.sha256()
+    for c in cmd:
+        if c == meta:
+            c = "<meta>"
+        elif cfg and c == cfg and os.path.isabs(cfg):
+            c = "<generated cfg>"
+        h.update(c.encode() + b"\0")
+    for fn in sorted(os.listdir(cwd)):
+        if fn.endswith((".tla", ".cfg")):
+            with open(os.path.join(cwd, fn), "rb") as f:
+                h.update(fn.encode() + b"\0" + f.read() + b"\0")
+    if cfg and os.path.isabs(cfg) and os.path.exists(cfg):
+        with open(cfg, "rb") as f:
+            h.update(f.read())
+        # generated single-invariant cfgs have unique names: key by content instead
+        h.update(b"abs-cfg")
+    return os.path.join(mkdir(d), h.hexdigest() + ".json")
+
+
+def _mc_cache_get(key):
+    if key and os.path.exists(key):
+        try:
+            with open(key) as f:
+                return json.load(f)
+        except ValueError:
+            return None
+    return None
+
+
+def _mc_cache_put(key, val):
+    if key:
+        tmp = key + ".%d.tmp" % os.getpid()
+        with open(tmp, "w") as f:
+            json.dump(val, f)
+        os.replace(tmp, key)
+
+
 def tlc(module, cfg=None, workers=1, env=None, timeout=900, simulate=None, depth=None,
         dfs=False, coverage=False, xmx="6g", extra=(), deadlock=True, cwd=SPEC, tag=None, seed=None, expect=None):
     """Run TLC on spec/<module>.tla with spec/<cfg>.  Returns TlcResult.  Raises Infra on
@@ -277,6 +322,13 @@ def tlc(module, cfg=None, workers=1, env=None, timeout=900, simulate=None, depth
     e.pop("JAVA_TOOL_OPTIONS", None)
     if env:
         e.update(env)
+    ckey = _mc_cache_key(cmd, meta, cfg, cwd, env)
+    cached = _mc_cache_get(ckey)
+    if cached is not None:
+        shutil.rmtree(meta, ignore_errors=True)
+        r = TlcResult(cached["rc"], cached["out"], cached["wall"])
+        r.cmd = " ".join(cmd)
+        return r
     t0 = time.time()
     try:
         p = subprocess.run(cmd, cwd=cwd, env=e, stdout=subprocess.PIPE, stderr=subprocess.STDOUT,
@@ -288,6 +340,8 @@ def tlc(module, cfg=None, workers=1, env=None, timeout=900, simulate=None, depth
     shutil.rmtree(meta, ignore_errors=True)
     r = TlcResult(p.returncode, p.stdout, wall)
     r.cmd = " ".join(cmd)
+    if p.returncode in (0, 10, 11, 12, 13, 14):
+        _mc_cache_put(ckey, {"rc": p.returncode, "out": p.stdout, "wall": wall})
     if p.returncode >= 150 or "Parsing or semantic analysis failed" in p.stdout or \
             re.search(r"Error: TLC (threw|encountered) an unexpected exception", p.stdout) or \
             (p.returncode not in (0, 10, 11, 12, 13, 14)):
